@@ -238,7 +238,7 @@ def as_path(tokeniser: 'Tokeniser') -> AS2Path:
 
         elif len(as_path) == 0:
             try:
-                return AS2Path.make_aspath([SEQUENCE([ASN.from_string(value)])])
+                return AS2Path.make_aspath([SEQUENCE([ASN.from_string(value)])], asn4=True)
             except ValueError:
                 raise ValueError('could not parse as-path') from None
         else:
@@ -261,7 +261,7 @@ def as_path(tokeniser: 'Tokeniser') -> AS2Path:
 
                 # Filter out any ASN that snuck in, only keep segment types
                 segments = [seg for seg in as_path if isinstance(seg, (SEQUENCE, CONFED_SEQUENCE, SET, CONFED_SET))]
-                return AS2Path.make_aspath(segments)
+                return AS2Path.make_aspath(segments, asn4=True)
 
             try:
                 insert.append(ASN.from_string(value))
